@@ -24,6 +24,9 @@ pub struct BarSpec {
     /// produced by the key and not by the template or the message
     #[serde(default)]
     pub key_nl: bool,
+    /// the template starts with a line of blanks, this many times the terminal width long (0: no such line)
+    #[serde(default)]
+    pub blank_first: u8,
 }
 
 #[derive(Debug, Clone, Serialize, Deserialize, PartialEq)]
@@ -65,6 +68,11 @@ pub enum MOp {
     /// mp.clear() followed by mp.set_draw_target(a new target on the same terminal, same refresh rate): the
     /// region is erased, what was printed stays, the next draws paint the members again
     Retarget,
+    /// mp.clear() followed by mp.set_draw_target(hidden()): from here on nothing can be painted; the bars keep
+    /// working and their renderings are cached
+    HideMp,
+    /// mp.set_draw_target(a fresh target on the same terminal): the next draw paints the members as they are now
+    ShowMp,
 }
 
 #[derive(Debug, Clone, Serialize, Deserialize)]
@@ -91,10 +99,14 @@ pub fn finish_of(k: u8) -> ProgressFinish {
     }
 }
 
-fn tpl_for(tag: usize, two: bool, key_nl: bool) -> STpl {
+fn tpl_for(tag: usize, two: bool, key_nl: bool, blanks: usize) -> STpl {
     let mut lines = vec![vec![SPart::Lit(format!("B{tag}:")), SPart::Pos, SPart::Lit(" ".into()), SPart::Msg]];
+    if blanks > 0 {
+        lines.insert(0, vec![SPart::Lit(" ".repeat(blanks))]);
+    }
     if key_nl {
-        lines[0].push(SPart::KeyNl(format!("nl{tag}")));
+        let at = lines.len() - 1;
+        lines[at].push(SPart::KeyNl(format!("nl{tag}")));
     }
     if two {
         lines.push(vec![SPart::Lit(format!(" b{tag} ")), SPart::Prefix, SPart::Lit(".".into())]);
@@ -359,6 +371,8 @@ pub struct Interp {
     pub pending_from: usize,
     /// refresh rate the target was created with
     pub hz: Option<u8>,
+    /// the MultiProgress currently has a hidden target
+    pub hidden: bool,
 }
 
 /// What happened in one op, for the property-specific checks.
@@ -413,7 +427,7 @@ impl Interp {
             None => ProgressDrawTarget::term_like(vt.boxed()),
         };
         let mp = MultiProgress::with_draw_target(target);
-        Interp { vt, mp: Some(mp), handles: vec![], model: Model::default(), cols, rows, cut_to_height: false, stale_since_remove: false, stale_reap_seen: false, empty_suspend_line_seen: false, bottom_empty_frame_seen: false, limited: c.hz.is_some(), pending_text: false, pending_from: 0, hz: c.hz }
+        Interp { vt, mp: Some(mp), handles: vec![], model: Model::default(), cols, rows, cut_to_height: false, stale_since_remove: false, stale_reap_seen: false, empty_suspend_line_seen: false, bottom_empty_frame_seen: false, limited: c.hz.is_some(), pending_text: false, pending_from: 0, hz: c.hz, hidden: false }
     }
 
     fn entry_mut(&mut self, tag: usize) -> Option<&mut Entry> {
@@ -423,7 +437,7 @@ impl Interp {
     fn new_bar(&mut self, spec: &BarSpec) -> (ProgressBar, Entry, std::sync::Arc<std::sync::atomic::AtomicU64>) {
         let tag = self.model.next_tag;
         self.model.next_tag += 1;
-        let tpl = tpl_for(tag, spec.two_lines, spec.key_nl);
+        let tpl = tpl_for(tag, spec.two_lines, spec.key_nl, spec.blank_first as usize * self.cols);
         let ticks = std::sync::Arc::new(std::sync::atomic::AtomicU64::new(0));
         let pb = ProgressBar::with_draw_target(spec.len, ProgressDrawTarget::hidden())
             .with_style(tpl.style().with_key("verif_tick_spy", TickSpy(ticks.clone())))
@@ -438,8 +452,10 @@ impl Interp {
 
     /// a draw attempt of bar `tag`: its cached rendering is refreshed
     fn redraw(&mut self, tag: usize) {
+        let hidden = self.hidden;
         if let Some(e) = self.model.entries.iter_mut().find(|e| e.tag == tag) {
-            e.drawn = Some(e.st.frame());
+            // (a draw attempt on a hidden MultiProgress has no width to format for: the cached rendering is emptied)
+            e.drawn = Some(if hidden { vec![] } else { e.st.frame() });
         }
     }
 
@@ -462,7 +478,17 @@ impl Interp {
         if self.model.bottom_ever && matches!(op, MOp::Drop(_) | MOp::MpClear | MOp::MpSuspend(_) | MOp::BarSuspend(..) | MOp::MpPrintln(_) | MOp::BarPrintln(..) | MOp::BarPrintlnUnwinding(..)) {
             self.model.bottom_loose = true;
         }
-        if self.pending_text && matches!(op, MOp::MpClear | MOp::MpSuspend(_) | MOp::BarSuspend(..)) {
+        if self.hidden && matches!(op, MOp::MpPrintln(_) | MOp::BarPrintln(..) | MOp::BarPrintlnUnwinding(..) | MOp::MpSuspend(_) | MOp::BarSuspend(..) | MOp::MpClear | MOp::Retarget | MOp::HideMp | MOp::SetAlignment(_) | MOp::Resize(_)) {
+            // (text printed through a hidden target, and what a suspend closure writes meanwhile, is outside
+            // the statements; the other calls have nothing to act on)
+            out.skipped = true;
+            return Ok(out);
+        }
+        if !self.hidden && matches!(op, MOp::ShowMp) {
+            out.skipped = true;
+            return Ok(out);
+        }
+        if self.pending_text && matches!(op, MOp::MpClear | MOp::MpSuspend(_) | MOp::BarSuspend(..) | MOp::HideMp) {
             // (clear paints no text and a suspend closure writes before the redraw: where the pending line
             // goes relative to them is not specified - not issued while a line is pending)
             out.skipped = true;
@@ -619,13 +645,17 @@ impl Interp {
                     }
                 }
                 if member {
-                    if !was_finished {
+                    if !was_finished && !self.hidden {
                         // 1. the final draw is painted while the bar is still a live member
                         self.redraw(tag);
                         out.pre_reap_frame = Some(self.model.frame());
                         self.model.mark_on_screen();
                         self.model.reap(false);
                     } else {
+                        if !was_finished {
+                            // (hidden: the final rendering is cached, nothing is painted)
+                            self.redraw(tag);
+                        }
                         paint = false; // dropping a finished bar draws nothing
                     }
                     reap_now = false;
@@ -677,6 +707,32 @@ impl Interp {
                     e.on_screen = false;
                 }
                 out.phase_frames.push((vec![], self.model.log.len()));
+            }
+            MOp::HideMp => {
+                if self.model.bottom_ever {
+                    out.skipped = true;
+                    return Ok(out);
+                }
+                out.io_result = Some(mp.clear().map_err(|e| e.to_string()));
+                mp.set_draw_target(ProgressDrawTarget::hidden());
+                self.hidden = true;
+                self.model.blocks_optional();
+                reap_now = false;
+                for e in &mut self.model.entries {
+                    e.on_screen = false;
+                }
+                out.phase_frames.push((vec![], self.model.log.len()));
+                out.note = "multi_progress_hidden";
+            }
+            MOp::ShowMp => {
+                let target = match self.hz {
+                    Some(hz) => ProgressDrawTarget::term_like_with_hz(self.vt.boxed(), hz.max(1)),
+                    None => ProgressDrawTarget::term_like(self.vt.boxed()),
+                };
+                mp.set_draw_target(target);
+                self.hidden = false;
+                paint = false;
+                out.note = "multi_progress_shown_again";
             }
             MOp::Retarget => {
                 if self.model.bottom_ever {
@@ -837,6 +893,10 @@ impl Interp {
             }
         }
         out.frames = self.vt.take_frames();
+        if self.hidden && !matches!(op, MOp::HideMp) {
+            // nothing is painted and no dropped bar leaves the list at a paint; renderings are still cached
+            paint = false;
+        }
         if self.pending_text && paint && !matches!(op, MOp::BarPrintlnUnwinding(..) | MOp::Retarget) {
             // the pending line makes this draw a forced text draw
             text_paint = true;
@@ -934,7 +994,7 @@ pub fn fit_prefix(lines: &[String], rows: usize, cols: usize) -> Vec<String> {
 
 pub fn spec_strategy(cols: usize) -> BoxedStrategy<BarSpec> {
     (proptest::bool::weighted(0.3), proptest::option::weighted(0.8, 1u64..50), prop_oneof![3 => Just(2u8), 2 => Just(0u8), 1 => 1u8..5], short_text(cols))
-        .prop_map(|(two_lines, len, on_finish, msg)| BarSpec { two_lines, len, on_finish, msg, key_nl: false })
+        .prop_map(|(two_lines, len, on_finish, msg)| BarSpec { two_lines, len, on_finish, msg, key_nl: false, blank_first: 0 })
         .boxed()
 }
 
@@ -973,6 +1033,8 @@ pub fn mop_strategy(cols: usize, with_wait: bool) -> BoxedStrategy<MOp> {
         1 => any::<bool>().prop_map(MOp::SetAlignment),
         1 => (s(), 0u8..12).prop_map(|(i, w)| MOp::SetTabWidth(i, w)),
         1 => (s(), 0u8..3, s()).prop_map(|(i, h, a)| MOp::Readd(i, h, a)),
+        1 => Just(MOp::HideMp),
+        2 => Just(MOp::ShowMp),
     ];
     if with_wait {
         prop_oneof![24 => base, 2 => prop_oneof![Just(0u32), 1u32..50, 50u32..3000].prop_map(MOp::Wait), 1 => (s(), "[a-z]{1,4}").prop_map(|(i, t)| MOp::BarPrintlnUnwinding(i, t)), 1 => Just(MOp::Retarget)].boxed()
@@ -991,6 +1053,7 @@ pub fn decode_spec(u: &mut FuzzInput, cols: usize, single_line: bool) -> BarSpec
         on_finish: [2u8, 2, 2, 0, 0, 1, 3, 4][u.n(7)],
         msg: u.short(cols),
         key_nl: false,
+        blank_first: 0,
     }
 }
 
@@ -1048,7 +1111,7 @@ pub fn decode_multi(u: &mut FuzzInput, flavour: u8) -> MultiCase {
     let step_ms = if hz.is_some() { [0u32, 0, 1, 200][u.n(3)] } else { 2 };
     let mut ops = vec![];
     if hz.is_some() {
-        ops.push(MOp::Add(BarSpec { two_lines: false, len: Some(9), on_finish: 0, msg: String::new(), key_nl: false }));
+        ops.push(MOp::Add(BarSpec { two_lines: false, len: Some(9), on_finish: 0, msg: String::new(), key_nl: false, blank_first: 0 }));
         ops.extend(std::iter::repeat(MOp::Tick(0)).take(22));
     }
     while !u.empty() && ops.len() < 60 {
